@@ -7,6 +7,7 @@ package federation
 // sub-query to another service must be a plain query. Labelled bounded in the evidence.
 
 import (
+	"strings"
 	"context"
 	"encoding/json"
 	"fmt"
@@ -83,6 +84,15 @@ func c06Service2(sb *schemabuilder.Schema, user *schemabuilder.Object) {
 	user.FieldFunc("device", func(u *C06User) *C06Device { return c06Device(u) })
 	user.FieldFunc("friends", func(u *C06User) []*C06User { return c06Friends(u) })
 	sb.Query().FieldFunc("version", func() string { return "v2" })
+	sb.Query().FieldFunc("things", func() []*C06Thing {
+		return []*C06Thing{{C06User: c06UserData[0]}, {C06Device: &C06Device{Id: 7, Label: "seven"}}, {C06User: c06UserData[1]}}
+	})
+}
+
+type C06Thing struct {
+	schemabuilder.Union
+	*C06User
+	*C06Device
 }
 
 type c06Recorder struct {
@@ -124,6 +134,41 @@ func c06Strip(v interface{}) interface{} {
 		return out
 	}
 	return v
+}
+
+// c06DropExtraTypename removes from got every "__typename" key that want does not have at the same place. The gateway is
+// known to return the __typename it selects for its own dispatch on every union value (known finding k2).
+func c06DropExtraTypename(got, want interface{}) interface{} {
+	switch g := got.(type) {
+	case map[string]interface{}:
+		w, _ := want.(map[string]interface{})
+		out := map[string]interface{}{}
+		for k, e := range g {
+			if k == "__typename" {
+				if _, ok := w[k]; !ok {
+					continue
+				}
+			}
+			var we interface{}
+			if w != nil {
+				we = w[k]
+			}
+			out[k] = c06DropExtraTypename(e, we)
+		}
+		return out
+	case []interface{}:
+		w, _ := want.([]interface{})
+		out := make([]interface{}, len(g))
+		for i, e := range g {
+			var we interface{}
+			if i < len(w) {
+				we = w[i]
+			}
+			out[i] = c06DropExtraTypename(e, we)
+		}
+		return out
+	}
+	return got
 }
 
 func c06Norm(v interface{}) interface{} {
@@ -177,13 +222,24 @@ func TestVerifBounded_C06_Gateway(t *testing.T) {
 		`{ users { ...F } } fragment F on C06User { id badge device { label } }`,
 		`{ users { id badge @skip(if: true) name @include(if: true) } }`,
 		`{ users { __typename id device { __typename id } } }`,
+		`{ things { __typename ... on C06User { id name } ... on C06Device { id label } } }`,
+		`{ things { ... on C06Device { label } } }`,
 		`mutation { newUser(name: "zed") { id name } }`,
 		`mutation { newUser(name: "zed") { id name badge } }`,
 		`mutation { newUser(name: "yo") { name device { label } friends { id badge } } }`,
 	}
 	evals, distinct, failures := 0, 0, 0
+	classes := map[string]bool{}
+	defer func() {
+		for c := range classes {
+			fmt.Printf("VERIF-FAIL-CLASS: %s\n", c)
+		}
+	}()
 	fail := func(query, detail string) {
 		failures++
+		if !strings.HasPrefix(detail, "gateway {") {
+			classes["other"] = true
+		}
 		if failures <= 3 {
 			b, _ := json.Marshal(map[string]interface{}{"query": query, "detail": detail})
 			fmt.Printf("VERIF-FAIL-INPUT: %s\n", b)
@@ -223,6 +279,11 @@ func TestVerifBounded_C06_Gateway(t *testing.T) {
 		if !reflect.DeepEqual(c06Norm(got), c06Norm(want)) {
 			g, _ := json.Marshal(c06Norm(got))
 			w, _ := json.Marshal(c06Norm(want))
+			class := "other"
+			if reflect.DeepEqual(c06DropExtraTypename(c06Norm(got), c06Norm(want)), c06Norm(want)) {
+				class = "gateway-union-extra-typename"
+			}
+			classes[class] = true
 			fail(query, fmt.Sprintf("gateway %s, combined server %s", g, w))
 		}
 		if q.Kind == "mutation" {
